@@ -20,6 +20,9 @@ def run(ctx):
     ctx.tlc("ServerRun", srvlib.cfg(nc, invariants=INV, properties=["Terminates", "MonotoneStep"]), files=mod, label="Server mc (C14, %d clients)" % nc, timeout=1500)
     ctx.expect_mutant_violates("ServerRun", srvlib.cfg(1, wait=False, invariants=["ListenerReleased", "RebindOk"]), "mutant WaitForStart=FALSE (no join)", files=mod)
     ctx.expect_mutant_violates("ServerRun", srvlib.cfg(1, graceful=False, invariants=["Drain"]), "mutant Graceful=FALSE (Close instead of Shutdown)", files=mod)
+    # 1b. the job combinators on their own, every shape (JobTree.tla), bound to the real SpawnJob / CombineJobs by trace validation
+    import joblib
+    joblib.run(ctx)
     # 2. behaviours -> gated schedule replay on the real server.Run
     n = 48 if ctx.quick else 600
     beh = srvlib.generate(ctx, kinds, 1, n // 2, True, "ServerGen C14 1 client") + srvlib.generate(ctx, kinds, 2, n // 2, True, "ServerGen C14 2 clients")
@@ -155,6 +158,15 @@ def replay(ctx, path):
     if case["kind"] == "srv-replay":
         res = ctx.run_vh(["srv-replay"], case["cases"], timeout=3000)
         bad = [x for x in res if any(m["kind"] in C14_KINDS for m in (x.get("observed") or []))]
+    elif case["kind"] == "jobtree":
+        # re-run the recorded shape against the real combinators and evaluate the property-level observation on every fresh run
+        import joblib
+        sh = joblib.SHAPES[case["shape"]]
+        tf = os.path.join(ctx.scratch, "jobtree-replay.ndjson")
+        res = ctx.run_vh(["jobtree"], dict(shape=sh, runs=400, traceFile=tf, twice=True), timeout=1800)
+        lines = [json.loads(x) for x in open(tf)]
+        bounds = [i for i, e in enumerate(lines) if e["ev"] == "reset"] + [len(lines)]
+        bad = [x for x in res if not x["ok"]] + [w for w in (joblib.oracle(sh, lines[a:b]) for a, b in zip(bounds, bounds[1:])) if w][:3]
     elif case["kind"].startswith("srv-sigint"):
         ctx.run_vh(["c09"], dict(mode="deletion", depth=2, batch=1, sequences=[], canary="valid"), timeout=1200)
         c = dict(case["cases"], cli=ctx.build_cli(), dir=ctx.scratch)
